@@ -15,13 +15,16 @@
 (* the local one: many small accepted steps drift away from 1.             *)
 (***************************************************************************)
 EXTENDS Integers, Sequences, TLC, Json
-CONSTANTS Unit, Tol, Band, MaxOff, Local, Emitting, EmitOneIn
+CONSTANTS Unit, Tol, Band, MaxOff, Scale, Local, Emitting, EmitOneIn
+\* Tol is not a number this module invents: the check measures what the CONSTRUCTOR of the tree under test accepts and passes it in
+\* (what the property fixes is that assignments keep the object inside the constructor's own creation condition); Scale stretches
+\* the steps with it (Scale = max(1, Tol / 100))
 VARIABLES p, ev
 vars == <<p, ev>>
 Abs(x) == IF x < 0 THEN -x ELSE x
 Half == Unit \div 2
 Dev(q) == Abs(q[1] + q[2] - Unit)
-Deltas == {-40, -7, 3, 7, 40}
+Deltas == {-40 * Scale, -7 * Scale, 3 * Scale, 7 * Scale, 40 * Scale}
 Creatable(q) == Dev(q) <= Tol - Band                 \* the constructor certainly accepts these amplitudes
 MustAccept(old, new, i) == IF Local THEN Abs(new[i] - old[i]) <= Tol - Band ELSE Dev(new) <= Tol - Band
 MustReject(old, new, i) == IF Local THEN Abs(new[i] - old[i]) >= Tol + Band ELSE Dev(new) >= Tol + Band
@@ -40,7 +43,7 @@ RejectedChangesNothing == [][ev'.out = "rejected" => p' = p]_vars
 \* export: the boundary region 1 in EmitOneIn, everything else 1 in 25 * EmitOneIn (deterministic by content); EmitOneIn = 0: everything
 Emit == IF ~Emitting THEN TRUE ELSE
         LET tent == [p EXCEPT ![ev'.i] = p[ev'.i] + ev'.d]
-            near == Dev(tent) >= Tol - 12 /\ Dev(tent) <= Tol + 45
+            near == Dev(tent) >= Tol - 12 * Scale /\ Dev(tent) <= Tol + 45 * Scale
             h == IF EmitOneIn = 0 THEN 0 ELSE (p[1] * 7 + p[2] * 13 + ev'.d + 3 * ev'.i) % (IF near THEN EmitOneIn ELSE 25 * EmitOneIn) IN
         IF h # 0 THEN TRUE
         ELSE PrintT(ToJson([pre |-> p, i |-> ev'.i, d |-> ev'.d, out |-> ev'.out, either |-> ev'.either, post |-> p', lvl |-> TLCGet("level")]))
